@@ -74,7 +74,27 @@ def peers_for(rnd):
     # names whose table entry consists of failure notes only (no warning or information list)
     P.append(dict(good, kex=['curve25519-sha256', 'kex-strict-s-v00@openssh.com'], key=['ssh-ed25519', 'ssh-xmss@openssh.com'],
                   enc=['arcfour', 'aes256-gcm@openssh.com', 'arcfour256', '3des-ctr', 'none'], mac=['hmac-sha2-256-etm@openssh.com', 'none']))
+    # a client whose KEXINIT names different algorithms per direction (the report lists one direction, in every format)
+    P.append(dict(good, role='client', kex=['curve25519-sha256'], enc=['aes128-ctr', 'aes256-gcm@openssh.com'], mac=['hmac-sha2-256', 'umac-128@openssh.com'],
+                  enc_c2s=['3des-cbc', 'aes128-ctr'], mac_c2s=['hmac-md5', 'hmac-sha2-256-etm@openssh.com']))
+    P.append(dict(good, role='client', kex=['curve25519-sha256', 'kex-strict-c-v00@openssh.com'], enc=['chacha20-poly1305@openssh.com'], mac=['hmac-sha1'],
+                  enc_c2s=['aes256-ctr'], mac_c2s=['hmac-sha2-512']))
+    # a server whose RSA certificate is cut off after the certificate-type field: the probe of that type fails in every output
+    # mode alike, so nothing is measured or rated for it
+    from harness import wire as _w
+    full = rating.hostkey_blob('rsa-sha2-512-cert-v01@openssh.com', (1024, 'ssh-rsa', 4096))
+    cut = full.index(_w.string(b'host.example.org key'))
+    P.append(dict(good, kex=['curve25519-sha256', 'kex-strict-s-v00@openssh.com'], key=['rsa-sha2-512-cert-v01@openssh.com', 'ssh-ed25519'],
+                  raw_hostkeys={'rsa-sha2-512-cert-v01@openssh.com': full[:cut]}))
     return P
+
+
+def mk(i, p):
+    c = rating.mk_case(i, role=p.get('role', 'server'), kex=p['kex'], key=p['key'], enc=p['enc'], mac=p['mac'], hk=p.get('hk'), dh=p.get('dh'),
+                       sw={'product': 'OpenSSH', 'c': [9, 6], 'p': ['none', 0]}, enc_c2s=p.get('enc_c2s'), mac_c2s=p.get('mac_c2s'))
+    if p.get('raw_hostkeys'):
+        c['raw_hostkeys'] = p['raw_hostkeys']
+    return c
 
 
 def findings_of_exp(exp, min_level='info'):
@@ -142,8 +162,7 @@ def run(tier):
 
 def cli_leg(ck, tier, rnd):
     P = peers_for(rnd)
-    cases = [rating.mk_case(i + 1, kex=p['kex'], key=p['key'], enc=p['enc'], mac=p['mac'], hk=p.get('hk'), dh=p.get('dh'),
-                            sw={'product': 'OpenSSH', 'c': [9, 6], 'p': ['none', 0]}) for i, p in enumerate(P)]
+    cases = [mk(i + 1, p) for i, p in enumerate(P)]
     expected = rating.evaluate(ck, cases, workers=None)
     optsets = []
     for b, v, n, lvl, fmt in itertools.product((False, True), (False, True), (False, True), ('info', 'warn', 'fail'), ('text', 'j', 'jj')):
